@@ -49,4 +49,6 @@ TraceAccepted ==
   LET d == TLCGet("stats").diameter IN
   IF d - 1 = Len(Rec) THEN TRUE
   ELSE Print(<<"TRACE-REJECTED at event", d, Rec[d]>>, FALSE)
+\* C07 (size half, observed): no produced datagram exceeds the UDP payload limit
+C07_Size == [][ (l <= Len(Rec) /\ "outlen" \in DOMAIN Rec[l]) => Rec[l].outlen <= 65507 ]_tvars
 ==============================================================================
